@@ -72,7 +72,7 @@ func init() {
 		Harnesses: func(tier string) []HarnessSpec {
 			return []HarnessSpec{
 				{Pkg: "pkg", Fn: "VerifC11LargeDataNative", NativeOnly: true, Bounds: map[string]any{"data": "17 MiB and 33 MiB texts (a document followed by white space), text and compiled entry point: native only, no solver"}},
-				{Pkg: "pkg", Fn: "VerifC11Events", CrossCheck: true, Native: "VerifC11EventsNative", Reach: []string{"returned", "compile-ok", "compile-failed", "ends-in-start"}, Bounds: map[string]any{"entry_points": 5, "profiles": 5}},
+				{Pkg: "pkg", Fn: "VerifC11Events", CrossCheck: true, Native: "VerifC11EventsNative", Reach: []string{"returned", "compile-ok", "compile-failed", "ends-in-start", "succeeded"}, Bounds: map[string]any{"entry_points": 5, "profiles": 5}},
 				{Pkg: "pkg", Fn: "VerifC11Reuse", Native: "VerifC11ReuseNative", Reach: []string{"two-requests"}, Bounds: map[string]any{"requests": 2, "profiles": 2, "channel_kept_in": "one variable re-made per request | one variable per request", "entry_points": 3, "stage_faults": "per request"}},
 				{Pkg: "pkg", Fn: "VerifC11NilChannel", Reach: []string{"returned"}},
 			}
